@@ -523,6 +523,19 @@ func GenProgram(t *rapid.T, prof *Profile, doc Doc) *Program {
 				Obj(F("q", Ref("input", "tag"))),
 			}}))
 		}
+		if prof.DeepExpr && g.pct(20, "out_list_of_lists") {
+			// expressions two list levels down
+			// (only expressions: an integer literal in an output is a YAML scalar, i.e. a string)
+			second := Op("+", Ref("input", "n"), Ref("input", "n"))
+			if last := p.Steps[len(p.Steps)-1]; last.Kind == "plugin" {
+				second = StepRef(last.ID, "outputs", "success", "a")
+			}
+			inner := []*Expr{Ref("input", "n"), second}
+			fields = append(fields, F("ll", &Expr{K: "list", Items: []*Expr{
+				{K: "list", Items: []*Expr{Ref("input", "n"), Ref("input", "n")}},
+				{K: "list", Items: inner},
+			}}))
+		}
 		if prof.DeepExpr && g.pct(25, "out_float_string") {
 			// a conversion chain through the float functions (whole numbers print without a decimal point)
 			fields = append(fields, F("fstr", Call("floatToString", Call("intToFloat", Ref("input", "n")))))
